@@ -164,6 +164,7 @@ func variadic(v Value) []Value {
 
 // intrinsic dispatches calls that the engine implements itself.
 func (ex *Exec) intrinsic(fr *frame, fn *ssa.Function, args []Value) (Value, bool) {
+	ex.curFrame = fr
 	if fn.Synthetic == "package initializer" {
 		if fn.Pkg != nil && ex.eng.eager[fn.Pkg] {
 			if ex.pkgInitStarted[fn.Pkg] {
@@ -182,7 +183,9 @@ func (ex *Exec) intrinsic(fr *frame, fn *ssa.Function, args []Value) (Value, boo
 	}
 	full := fn.String()
 	if h, ok := stubTable[full]; ok {
-		return h(ex, fr, args), true
+		if r := h(ex, fr, args); r != Value(fallThrough) {
+			return r, true
+		}
 	}
 	if fn.Pkg != nil {
 		pp := fn.Pkg.Pkg.Path()
@@ -196,6 +199,71 @@ func (ex *Exec) intrinsic(fr *frame, fn *ssa.Function, args []Value) (Value, boo
 		}
 	}
 	return nil, false
+}
+
+// fallThrough is returned by a conditional stub that wants the real body executed.
+var fallThrough = &StubFunc{name: "fallthrough"}
+
+func registerLibStubs() {
+	// bytealg.MakeNoZero(n): a byte slice whose content the caller overwrites
+	stubTable["internal/bytealg.MakeNoZero"] = func(ex *Exec, fr *frame, args []Value) Value {
+		n := ex.concInt(args[0], "MakeNoZero length")
+		ts := make([]*Term, n)
+		for i := range ts {
+			ts[i] = ex.tt.BV(8, 0)
+		}
+		return ex.byteSlice(ts)
+	}
+	// sync/atomic: a read-modify-write of the addressed cell (executions are sequential
+	// in the engine; the access is recorded in the footprint like any other)
+	for _, w := range []string{"Uint32", "Int32", "Uint64", "Int64", "Uintptr"} {
+		stubTable["sync/atomic.Add"+w] = func(ex *Exec, fr *frame, args []Value) Value {
+			p := args[0].(*Value)
+			ex.noteRead(p)
+			ex.noteWrite(p)
+			n := ex.tt.Bin(OAdd, (*p).(*Term), args[1].(*Term))
+			*p = n
+			return n
+		}
+		stubTable["sync/atomic.Load"+w] = func(ex *Exec, fr *frame, args []Value) Value {
+			p := args[0].(*Value)
+			ex.noteRead(p)
+			return *p
+		}
+		stubTable["sync/atomic.Store"+w] = func(ex *Exec, fr *frame, args []Value) Value {
+			p := args[0].(*Value)
+			ex.noteWrite(p)
+			*p = args[1]
+			return nil
+		}
+		stubTable["sync/atomic.Swap"+w] = func(ex *Exec, fr *frame, args []Value) Value {
+			p := args[0].(*Value)
+			ex.noteRead(p)
+			ex.noteWrite(p)
+			old := *p
+			*p = args[1]
+			return old
+		}
+		stubTable["sync/atomic.CompareAndSwap"+w] = func(ex *Exec, fr *frame, args []Value) Value {
+			p := args[0].(*Value)
+			ex.noteRead(p)
+			if ex.branch(ex.tt.Eq((*p).(*Term), args[1].(*Term))) {
+				ex.noteWrite(p)
+				*p = args[2]
+				return ex.tt.Bool(true)
+			}
+			return ex.tt.Bool(false)
+		}
+	}
+	// CompletionCode.Description is a map lookup used only to format metric labels and
+	// error messages: for a symbolic code it would fork once per known code, so it yields
+	// an opaque string instead (formatting is not the subject of any property)
+	stubTable["(github.com/gebn/bmc/pkg/ipmi.CompletionCode).Description"] = func(ex *Exec, fr *frame, args []Value) Value {
+		if t, ok := args[0].(*Term); ok && !t.IsConst() {
+			return &OpaqueStr{format: "ccdesc", args: []Value{t}}
+		}
+		return fallThrough
+	}
 }
 
 func (ex *Exec) harnessAPI(fr *frame, name string, args []Value) (Value, bool) {
@@ -283,7 +351,7 @@ func (ex *Exec) harnessAPI(fr *frame, name string, args []Value) (Value, bool) {
 		iv := ex.sliceTerms(args[2])
 		data := ex.sliceTerms(args[3])
 		return ex.byteSlice(ex.cbcTerm(enc, key, iv, data)), true
-	case "vUseRealRand":
+	case "vUseRealRand", "vIsolation":
 		return nil, true
 	case "vConflicts":
 		// run the two operations one after the other, recording their footprints
@@ -754,7 +822,11 @@ func init() {
 			if _, stub := ei.v.(StubObject); stub {
 				return ex.tt.Bool(false)
 			}
-			m := ex.eng.prog.LookupMethod(ei.t, nil, "Unwrap")
+			sel := ex.eng.prog.MethodSets.MethodSet(ei.t).Lookup(nil, "Unwrap")
+			if sel == nil {
+				return ex.tt.Bool(false)
+			}
+			m := ex.eng.prog.MethodValue(sel)
 			if m == nil || m.Signature.Results().Len() != 1 {
 				return ex.tt.Bool(false)
 			}
@@ -787,6 +859,7 @@ func init() {
 		}
 	}
 	registerEnvStubs()
+	registerLibStubs()
 }
 
 func hashAlgOf(s string) string {
